@@ -249,7 +249,7 @@ func c10Exec(c *mon.Ctx, r *mon.Rand, withSleep bool) {
 		closeAt = r.Intn(n)
 	}
 	c.Eval(1)
-	var wantOK, wantErr int64
+	var wantOK, wantErr, typedNil int64
 	var outcomes []string
 	desc := func() interface{} {
 		return map[string]interface{}{"cached": cached, "prefix": opts.Prefix, "separator": sepArg, "name": name, "outcomes": outcomes}
@@ -268,7 +268,13 @@ func c10Exec(c *mon.Ctx, r *mon.Rand, withSleep bool) {
 				}
 			}
 			var retErr error
-			if r.Bool() {
+			if r.Chance(1, 8) {
+				// an error value that holds a nil pointer: not nil, returned as it is;
+				// which of the two counters it moves is not prescribed
+				retErr = (*c10TypedErr)(nil)
+				typedNil++
+				outcomes = append(outcomes, "error holding a nil pointer")
+			} else if r.Bool() {
 				retErr = errors.New(fmt.Sprintf("err-%d", i))
 				wantErr++
 				outcomes = append(outcomes, "error")
@@ -331,7 +337,7 @@ func c10Exec(c *mon.Ctx, r *mon.Rand, withSleep bool) {
 		}
 	}
 	c.Event("exec-calls", int64(n))
-	if gotOK != wantOK || gotErr != wantErr {
+	if gotOK < wantOK || gotErr < wantErr || gotOK+gotErr != wantOK+wantErr+typedNil {
 		c.Violation("exec-counters", map[string]interface{}{"why": fmt.Sprintf("success/error counters moved by %d/%d, outcomes were %d/%d", gotOK, gotErr, wantOK, wantErr), "case": desc()})
 	}
 	if len(lat) != n {
@@ -597,3 +603,8 @@ func c10Concurrent(c *mon.Ctx, r *mon.Rand) {
 	}
 	c.Distinct(mon.Hash64("conc", mode, fmt.Sprint(G, rounds, per, scName), fmt.Sprint(r.U64())))
 }
+
+// c10TypedErr: a pointer error type whose nil pointer is used as an error value.
+type c10TypedErr struct{}
+
+func (*c10TypedErr) Error() string { return "typed nil" }
